@@ -108,7 +108,7 @@ def shard(ctx):
         elif r0 < 0.8:
             prog = G.gen_program(rng, cascade=True, faults=False, n_items=rng.randint(4, 30))
             src = G.render(prog, split=workload.random_split(rng, len(prog["isa"]["rules"])))
-            w = {"files": {"main.asm": src}, "roots": ["main.asm"], "std": False, "tag": "casc", "kind": "casc"}
+            w = {"files": dict({"main.asm": src}, **prog.get("extra_files", {})), "roots": ["main.asm"], "std": False, "tag": "casc", "kind": "casc"}
         else:
             prog = None
             w = workload.draw(rng, kinds=("corpus", "mut", "isa", "isamut", "macro"), weights=(2, 2, 2, 1, 4))
